@@ -250,6 +250,23 @@ def run(chk):
             mod_assign = [99 if x == 9 else x for x in mod_assign]
             if impl_assign != mod_assign:
                 chk.tie_break("correspondence:finalize", "bank assignment differs", {"source": src, "impl": impl_assign, "model": mod_assign})
+    # ---- data at the top of the address space: accepted up to $FFFF, an error beyond (never a truncated or wrapped image)
+    dist["top_of_memory"] = 0
+    for start in (0xFFF0, 0xFFFC, 0xFFFE, 0xFFFF, 0x10000, 0x10001, 0x12345):
+        for ln in (1, 2, 4, 16, 17):
+            data = [(7 * i + start) % 255 + 1 for i in range(ln)]
+            cfg = {"banks": [], "segs": [{"name": 0, "start": start, "dep": None, "data": data, "bank": None, "write": True, "pc": None}],
+                   "format": "bin", "outname": None, "order": [0], "split": {0: False}, "idx": -1}
+            rc, out, files = run_build(mos, cfg, workdir)
+            fits = start + ln <= 0x10000
+            dist["top_of_memory"] += 1
+            chk.count(1, 1)
+            if fits and (rc != 0 or files.get("main.bin") != bytes(data)):
+                chk.oracle_failure(None, "%d byte(s) at $%04X lie inside $0000-$FFFF but the build gives exit %d, files %s" % (
+                    ln, start, rc, {k: v.hex() for k, v in files.items()}), {"source": source(cfg), "cfg": cfg, "exit": rc, "output": out[-300:]})
+            if not fits and (rc == 0 or files):
+                chk.oracle_failure(None, "%d byte(s) at $%04X reach beyond $FFFF but the build succeeds (exit %d) and writes %s" % (
+                    ln, start, rc, {k: v.hex() for k, v in files.items()}), {"source": source(cfg), "cfg": cfg, "exit": rc})
     probe.stop()
     model.stop()
     chk.cov["rule"] = ("seeded random configurations: 0-4 banks (size exact/short/long/none, fill, shared filenames) x 1-6 non-empty segments "
